@@ -130,12 +130,14 @@ Definition u_adj_coef (a : sx) : sx :=
   | _ => bad_input
   end.
 
-(* k = 5  the whole of BiproportionalEvaluator.evaluate: (div q votes n tgtmode dorder fuel)
+(* k = 5  the whole of BiproportionalEvaluator.evaluate: (div q votes n tgtmode dorder fuel strict)
+     strict  = 1 the code as it stands (an election without votes is refused: fixes/C07-all-zero.diff) | 0 the pinned tree
      tgtmode = (0)       seats as a total, no apportioner: districts by the same divisor rule (evaluate_total)
              | (1 dict)  tgt_district_seats as core.apportion returned them (evaluate_core)
      dorder  = iteration order of frozenset(cur_district_seats) | frozenset(tgt_district_seats)
    -> (0 (code payload trace)) : code 0 returned (payload = (res rho gamma): the final multipliers are ghost output),
       1 VotingSystemError (payload = the refused coefficient), 2 ZeroDivisionError, 3 KeyError, 4 ValueError,
+      5 VotingSystemError: no votes cast,
       10 / 11 party / district apportionment tied (outside the modelled domain), 99 out of fuel;
       trace = the (res rho gamma) at the top of every iteration *)
 Definition of_qdict (l : list (C * Q)) : sx := of_dict of_pos of_Q l.
@@ -150,20 +152,22 @@ Definition of_bp (r : bp_result) (tr : list bstate) : sx :=
   | BP_value_error => ok (L [A 4; L []; t])
   | BP_party_tie => ok (L [A 10; L []; t])
   | BP_district_tie => ok (L [A 11; L []; t])
+  | BP_no_votes => ok (L [A 5; L []; t])
   | BP_out_of_fuel => ok (L [A 99; L []; t])
   end.
 
 Definition u_biprop_loop (a : sx) : sx :=
   match a with
-  | L [A dv; qq; v; A n; tm; dord; fu] =>
+  | L [A dv; qq; v; A n; tm; dord; fu; A st] =>
       match as_Q qq, as_mat v, as_listof as_pos dord, as_nat fu with
       | Some q, Some votes, Some dorder, Some fuel =>
           let d := divisor_by_id dv in
+          let strict := negb (st =? 0) in
           match tm with
-          | L [A 0] => let tr := run_total d q votes n dorder fuel in of_bp (snd tr) (fst tr)
+          | L [A 0] => let tr := run_total d q votes strict n dorder fuel in of_bp (snd tr) (fst tr)
           | L [A 1; dd] =>
               match as_dict as_pos as_Z dd with
-              | Some tgt => let tr := run_core d q votes tgt dorder n fuel in of_bp (snd tr) (fst tr)
+              | Some tgt => let tr := run_core d q votes tgt dorder strict n fuel in of_bp (snd tr) (fst tr)
               | None => bad_input
               end
           | _ => bad_input
